@@ -1,7 +1,8 @@
 /-
 Round 4: Go `int` versus ℤ for print() (Props/C05Overflow.lean `range_print_partial`): the range check of the translated body,
 run in phases like the body-equivalence proof (Lemmas/EmuBodyPrint.lean): the statements in front of the wrap, the wrap (whose
-`vt.nel()` call changes the state: the invariant after it comes from `nel_safe`), and everything after it (`range_post`).
+`vt.nel()` call changes the state: the invariant after it comes from `nel_safe`), the insert-mode shift loop (a successful loop
+keeps the shape of the grid: `cellCopy_gridOk`, `forDown_keeps`, `shift_keeps`), and everything after it (`range_post11`).
 -/
 import VaxisModel.Lemmas.EmuBodyRange
 import VaxisModel.Lemmas.EmuBodyPrint
@@ -37,21 +38,6 @@ macro "range_tree" : tactic => `(tactic|
     | apply And.intro
     | omega))
 
-set_option maxHeartbeats 400000 in
-/-- print(), statements 9–20 (everything after the wrap), insert mode off -/
-theorem range_post {rows cols : Nat} (d : Dim rows cols) (w : Nat) (hw : (w : Int) ≤ 65535) (s : Frame)
-    (h : EmuInv s.e rows cols) (h0 : s.vars 0 = w) (h1 : s.vars 1 = w) (hirm : s.e.mode.irm = false) :
-    rangeFrom 8 s = true := by
-  obtain ⟨b1, b2, b3, b4, b5, b6, b7, b8, b9, b10, b11, b12, b13, b14, b15⟩ := good_bounds h d
-  simp only [rangeFrom, dropSeq, tailSeq, TermBodies.stmt_print]
-  range_norm
-  (try range_norm)
-  (try range_norm)
-  have hirm' : s.e.mode.get TermModes.ModeField.irm = false := hirm
-  simp only [h0, h1, hirm', Bool.false_eq_true, if_false]
-  simp only [b10, b11]
-  range_tree
-
 /-- the invariant carried through the statements of print() in front of the store -/
 structure PG (rows cols w : Nat) (s : Frame) : Prop where
   inv : EmuInv s.e rows cols
@@ -67,9 +53,174 @@ theorem range_step (k : Nat) (a b : Stmt) (hd : dropSeq k TermBodies.stmt_print 
   · rename_i s1 heq; exact hnext s1 heq
   · rfl
 
+theorem setI_shape {α : Type} {l l' : List α} {i : Int} {x : α} (h : setI l i x = .ok l') : l' = l.set i.toNat x := by
+  unfold setI at h
+  split at h
+  · exact (Except.ok.inj h).symm
+  · cases h
+
+theorem getI_mem {α : Type} {l : List α} {i : Int} {x : α} (h : getI l i = .ok x) : x ∈ l := by
+  unfold getI at h
+  split at h
+  · split at h
+    · rename_i y hy
+      cases h
+      exact List.mem_of_getElem? hy
+    · cases h
+  · cases h
+
+/-- a successful cell copy keeps the shape of the grid -/
+theorem cellCopy_gridOk {g g' : Grid} {rows cols : Nat} (hg : GridOk g rows cols) {r c r2 c2 : Int}
+    (h : cellCopy g r c r2 c2 = .ok g') : GridOk g' rows cols := by
+  unfold cellCopy at h
+  cases h1 : getI g r with
+  | error p => simp [h1, bind, Except.bind] at h
+  | ok row =>
+    cases h2 : getI g r2 with
+    | error p => simp [h1, h2, bind, Except.bind] at h
+    | ok row2 =>
+      cases h3 : getI row2 c2 with
+      | error p => simp [h1, h2, h3, bind, Except.bind] at h
+      | ok x =>
+        cases h4 : setI row c x with
+        | error p => simp [h1, h2, h3, h4, bind, Except.bind] at h
+        | ok row' =>
+          simp only [h1, h2, h3, h4, bind, Except.bind] at h
+          have e1 := setI_shape h4
+          have e2 := setI_shape h
+          subst e1; subst e2
+          exact gridOk_set hg _ _ (by rw [List.length_set]; exact hg.rowLen _ (getI_mem h1))
+
+/-- partial correctness of a descending loop: an invariant kept by every successful iteration holds after a successful loop -/
+theorem forDownGo_keeps {σ : Type} (P : σ → Prop) (body : Int → σ → M σ)
+    (hb : ∀ i s s', body i s = .ok s' → P s → P s') :
+    ∀ (n : Nat) (i : Int) (s s' : σ), P s → forDownGo body n i s = .ok s' → P s'
+  | 0, _, s, s', hp, h => by cases h; exact hp
+  | n + 1, i, s, s', hp, h => by
+    simp only [forDownGo] at h
+    cases h1 : body i s with
+    | error p => simp [h1, bind, Except.bind] at h
+    | ok s1 =>
+      simp only [h1, bind, Except.bind] at h
+      exact forDownGo_keeps P body hb n (i - 1) s1 s' (hb i s s1 h1 hp) h
+
+theorem forDown_keeps {σ : Type} (P : σ → Prop) (body : Int → σ → M σ)
+    (hb : ∀ i s s', body i s = .ok s' → P s → P s') (hi lo : Int) (s s' : σ) (hp : P s)
+    (h : forDown hi lo body s = .ok s') : P s' := by
+  unfold forDown at h
+  simp only at h
+  split at h
+  · exact forDownGo_keeps P body hb _ _ _ _ hp h
+  · cases h2 : forDownGo body hangLimit hi s with
+    | error p => simp [h2, bind, Except.bind] at h
+    | ok x => simp [h2, bind, Except.bind] at h
+
+set_option maxHeartbeats 400000 in
+/-- print(), statements 12–20 (after the insert-mode shift) -/
+theorem range_post11 {rows cols : Nat} (d : Dim rows cols) (w : Nat) (hw : (w : Int) ≤ 65535) (s : Frame)
+    (h : EmuInv s.e rows cols) (h0 : s.vars 0 = w) (h1 : s.vars 1 = w) (h3 : s.vars 3 = s.e.cur.col) (h4 : s.vars 4 = s.e.cur.row) :
+    rangeFrom 11 s = true := by
+  obtain ⟨b1, b2, b3, b4, b5, b6, b7, b8, b9, b10, b11, b12, b13, b14, b15⟩ := good_bounds h d
+  simp only [rangeFrom, dropSeq, tailSeq, TermBodies.stmt_print]
+  range_norm
+  (try range_norm)
+  (try range_norm)
+  simp only [h0, h1, h3, h4]
+  simp only [b10, b11]
+  range_tree
+
+/-- the shift loop of print() keeps the shape of the grid -/
+theorem shift_keeps {rows cols : Nat} (s : Frame) (hi lo a b c dd : Ex) {g g' : Grid} {sg : Sig} (hg : GridOk g rows cols)
+    (h : evalG [] s (.forDown hi lo (.cellCopy a b c dd)) [] g = .ok (g', sg)) : GridOk g' rows cols ∧ sg = .norm := by
+  simp only [evalG, loopDown] at h
+  cases hfd : forDown (evalEx [] s [] hi) (evalEx [] s [] lo)
+      (fun i g => do
+        let r ← (do
+          let g' ← cellCopy g (evalEx [] s ([] ++ [i]) a) (evalEx [] s ([] ++ [i]) b) (evalEx [] s ([] ++ [i]) c) (evalEx [] s ([] ++ [i]) dd)
+          Except.ok (g', Sig.norm))
+        Except.ok r.1) g with
+  | error p => rw [hfd] at h; simp [bind, Except.bind] at h
+  | ok g1 =>
+    rw [hfd] at h
+    simp only [bind, Except.bind] at h
+    have hh := Prod.mk.inj (Except.ok.inj h)
+    refine ⟨?_, hh.2.symm⟩
+    rw [← hh.1]
+    refine forDown_keeps (fun g => GridOk g rows cols) _ ?_ _ _ _ _ hg hfd
+    intro i g2 g3 hb hp
+    cases hcc : cellCopy g2 (evalEx [] s ([] ++ [i]) a) (evalEx [] s ([] ++ [i]) b) (evalEx [] s ([] ++ [i]) c) (evalEx [] s ([] ++ [i]) dd) with
+    | error p => rw [hcc] at hb; simp [bind, Except.bind] at hb
+    | ok g4 =>
+      rw [hcc] at hb
+      simp only [bind, Except.bind] at hb
+      have := Except.ok.inj hb
+      subst this
+      exact cellCopy_gridOk hp hcc
+
+set_option maxHeartbeats 400000 in
+/-- statement 11, the insert-mode shift: `if vt.mode.irm { line := …; for i := right; i >= col+w; i -= 1 { line[i] = line[i-w] } }` -/
+theorem range_irm {rows cols : Nat} (d : Dim rows cols) (w : Nat) (hw : (w : Int) ≤ 65535) (s : Frame)
+    (h : EmuInv s.e rows cols) (h0 : s.vars 0 = w) (h1 : s.vars 1 = w) (h3 : s.vars 3 = s.e.cur.col) (h4 : s.vars 4 = s.e.cur.row) :
+    rangeFrom 10 s = true := by
+  obtain ⟨b1, b2, b3, b4, b5, b6, b7, b8, b9, b10, b11, b12, b13, b14, b15⟩ := good_bounds h d
+  apply range_step 10 _ _ rfl
+  · range_norm
+    (try range_norm)
+    simp only [h1, h3, h4]
+    range_tree
+  · intro s' hs'
+    simp only [evalS, evalCond] at hs'
+    by_cases hirm : s.e.mode.get TermModes.ModeField.irm = true
+    · simp only [hirm, if_true] at hs'
+      cases ht : evalG [] s (Stmt.touchRow (Ex.loc (Loc.var 4))) [] s.e.active with
+      | error p => rw [ht] at hs'; simp [bind, Except.bind] at hs'
+      | ok r =>
+        rw [ht] at hs'
+        simp only [bind, Except.bind, if_true] at hs'
+        have hr1 : r.1 = s.e.active := by
+          simp only [evalG] at ht
+          cases hgi : getI s.e.active (evalEx [] s [] (Ex.loc (Loc.var 4))) with
+          | error p => rw [hgi] at ht; simp [bind, Except.bind] at ht
+          | ok x => rw [hgi] at ht; simp only [bind, Except.bind] at ht; exact (congrArg Prod.fst (Except.ok.inj ht)).symm
+        have hinv1 : EmuInv (s.e.setActive r.1) rows cols := by rw [hr1]; exact setActive_inv h (active_ok h)
+        cases hf : evalG [] { s with e := s.e.setActive r.1 }
+            (Stmt.forDown (Ex.loc Loc.right) ((Ex.loc (Loc.var 3)).add (Ex.loc (Loc.var 1)))
+              (Stmt.cellCopy (Ex.loc (Loc.var 4)) (Ex.lv 0) (Ex.loc (Loc.var 4)) ((Ex.lv 0).sub (Ex.loc (Loc.var 1)))))
+            [] (s.e.setActive r.1).active with
+        | error p => rw [hf] at hs'; simp at hs'
+        | ok r2 =>
+          rw [hf] at hs'
+          simp only at hs'
+          obtain ⟨hg2, _⟩ := shift_keeps _ _ _ _ _ _ _ (active_ok hinv1) hf
+          have hs2 := (Prod.mk.inj (Except.ok.inj hs')).1
+          subst hs2
+          exact range_post11 d w hw _ (setActive_inv hinv1 hg2) h0 h1 (by simpa [setActive_cur] using h3) (by simpa [setActive_cur] using h4)
+    · simp only [hirm, if_false] at hs'
+      have hs2 := (Prod.mk.inj (Except.ok.inj hs')).1
+      subst hs2
+      exact range_post11 d w hw _ h h0 h1 h3 h4
+
+/-- print(), statements 9–20: everything after the wrap -/
+theorem range_post {rows cols : Nat} (d : Dim rows cols) (w : Nat) (hw : (w : Int) ≤ 65535) (s : Frame)
+    (h : EmuInv s.e rows cols) (h0 : s.vars 0 = w) (h1 : s.vars 1 = w) :
+    rangeFrom 8 s = true := by
+  -- col := vt.cursor.col
+  apply range_step 8 _ _ rfl
+  · simp [rangeS, exR]
+  intro s1 hs1
+  simp only [evalS, exOk, evalEx, Frame.get, if_true] at hs1
+  have e1 := (Prod.mk.inj (Except.ok.inj hs1)).1; subst e1
+  -- rw := vt.cursor.row
+  apply range_step 9 _ _ rfl
+  · simp [rangeS, exR]
+  intro s2 hs2
+  simp only [evalS, exOk, evalEx, Frame.get, if_true] at hs2
+  have e2 := (Prod.mk.inj (Except.ok.inj hs2)).1; subst e2
+  exact range_irm d w hw _ h (by simpa [Frame.set] using h0) (by simpa [Frame.set] using h1) (by simp [Frame.set]) (by simp [Frame.set])
+
 /-- statement 8, the wrap: `if wrap { vt.lastCol = false; …[width-1].wrapped = true; vt.nel() }` — afterwards the invariant holds again -/
 theorem range_wrap {rows cols : Nat} (d : Dim rows cols) (w : Nat) (hw : (w : Int) ≤ 65535) (s : Frame)
-    (h : EmuInv s.e rows cols) (h0 : s.vars 0 = w) (h1 : s.vars 1 = w) (hirm : s.e.mode.irm = false) :
+    (h : EmuInv s.e rows cols) (h0 : s.vars 0 = w) (h1 : s.vars 1 = w) :
     rangeFrom 7 s = true := by
   obtain ⟨b1, b2, b3, b4, b5, b6, b7, b8, b9, b10, b11, b12, b13, b14, b15⟩ := good_bounds h d
   apply range_step 7 _ _ rfl
@@ -84,7 +235,7 @@ theorem range_wrap {rows cols : Nat} (d : Dim rows cols) (w : Nat) (hw : (w : In
     by_cases hc : s.vars 2 = 0
     · simp [hc] at hs'
       obtain ⟨rfl⟩ := hs'
-      exact range_post d w hw s h h0 h1 hirm
+      exact range_post d w hw s h h0 h1
     · simp [hc] at hs'
       have h' := inv_lastCol h false
       have hwd := width_eq h' d.r1
@@ -97,28 +248,25 @@ theorem range_wrap {rows cols : Nat} (d : Dim rows cols) (w : Nat) (hw : (w : In
       simp only [ok_bind, if_true] at hs'
       rw [he1] at hs'
       simp only [ok_bind] at hs'
-      have hm : e1.mode = s.e.mode := by
-        have := (VaxisModel.Lemmas.EmuResize.nel_keep he1).mode
-        simpa [setActive_mode] using this
       have hs2 := Except.ok.inj hs'
       have hs3 : s' = { s with e := e1 } := (Prod.mk.inj hs2).1.symm
       subst hs3
-      exact range_post d w hw _ hi1 h0 h1 (by show e1.mode.irm = false; rw [hm]; exact hirm)
+      exact range_post d w hw _ hi1 h0 h1
 
 /-- a statement that only assigns to the local `wrap` (slot 2) leaves the frame's emulator and the locals 0, 1 alone -/
 theorem range_from6 {rows cols : Nat} (d : Dim rows cols) (w : Nat) (hw : (w : Int) ≤ 65535) (s : Frame)
-    (h : EmuInv s.e rows cols) (h0 : s.vars 0 = w) (h1 : s.vars 1 = w) (hirm : s.e.mode.irm = false) :
+    (h : EmuInv s.e rows cols) (h0 : s.vars 0 = w) (h1 : s.vars 1 = w) :
     rangeFrom 6 s = true := by
   apply range_step 6 _ _ rfl
   · simp only [rangeS, condR, exR, Bool.and_true, Bool.true_and]; split <;> rfl
   · intro s' hs'
     simp only [evalS, evalCond, evalEx, exOk, Frame.get, if_true] at hs'
     split at hs' <;> (have hs2 := (Prod.mk.inj (Except.ok.inj hs')).1; subst hs2)
-    · exact range_wrap d w hw _ h (by simpa [Frame.set] using h0) (by simpa [Frame.set] using h1) hirm
-    · exact range_wrap d w hw _ h h0 h1 hirm
+    · exact range_wrap d w hw _ h (by simpa [Frame.set] using h0) (by simpa [Frame.set] using h1)
+    · exact range_wrap d w hw _ h h0 h1
 
 theorem range_from5 {rows cols : Nat} (d : Dim rows cols) (w : Nat) (hw : (w : Int) ≤ 65535) (s : Frame)
-    (h : EmuInv s.e rows cols) (h0 : s.vars 0 = w) (h1 : s.vars 1 = w) (hirm : s.e.mode.irm = false) :
+    (h : EmuInv s.e rows cols) (h0 : s.vars 0 = w) (h1 : s.vars 1 = w) :
     rangeFrom 5 s = true := by
   obtain ⟨b1, b2, b3, b4, b5, b6, b7, b8, b9, b10, b11, b12, b13, b14, b15⟩ := good_bounds h d
   apply range_step 5 _ _ rfl
@@ -129,22 +277,22 @@ theorem range_from5 {rows cols : Nat} (d : Dim rows cols) (w : Nat) (hw : (w : I
   · intro s' hs'
     simp only [evalS, evalCond, evalEx, exOk, Frame.get, if_true] at hs'
     split at hs' <;> (have hs2 := (Prod.mk.inj (Except.ok.inj hs')).1; subst hs2)
-    · exact range_from6 d w hw _ h (by simpa [Frame.set] using h0) (by simpa [Frame.set] using h1) hirm
-    · exact range_from6 d w hw _ h h0 h1 hirm
+    · exact range_from6 d w hw _ h (by simpa [Frame.set] using h0) (by simpa [Frame.set] using h1)
+    · exact range_from6 d w hw _ h h0 h1
 
 theorem range_from4 {rows cols : Nat} (d : Dim rows cols) (w : Nat) (hw : (w : Int) ≤ 65535) (s : Frame)
-    (h : EmuInv s.e rows cols) (h0 : s.vars 0 = w) (h1 : s.vars 1 = w) (hirm : s.e.mode.irm = false) :
+    (h : EmuInv s.e rows cols) (h0 : s.vars 0 = w) (h1 : s.vars 1 = w) :
     rangeFrom 4 s = true := by
   apply range_step 4 _ _ rfl
   · simp only [rangeS, condR, exR, Bool.and_true, Bool.true_and]; split <;> rfl
   · intro s' hs'
     simp only [evalS, evalCond, evalEx, exOk, Frame.get, if_true] at hs'
     split at hs' <;> (have hs2 := (Prod.mk.inj (Except.ok.inj hs')).1; subst hs2)
-    · exact range_from5 d w hw _ h (by simpa [Frame.set] using h0) (by simpa [Frame.set] using h1) hirm
-    · exact range_from5 d w hw _ h h0 h1 hirm
+    · exact range_from5 d w hw _ h (by simpa [Frame.set] using h0) (by simpa [Frame.set] using h1)
+    · exact range_from5 d w hw _ h h0 h1
 
 theorem range_from0 {rows cols : Nat} (d : Dim rows cols) (w : Nat) (hw : (w : Int) ≤ 65535) (s : Frame)
-    (h : EmuInv s.e rows cols) (h0 : s.vars 0 = w) (hirm : s.e.mode.irm = false) :
+    (h : EmuInv s.e rows cols) (h0 : s.vars 0 = w) :
     rangeFrom 0 s = true := by
   -- decSpecial
   apply range_step 0 _ _ rfl
@@ -176,6 +324,5 @@ theorem range_from0 {rows cols : Nat} (d : Dim rows cols) (w : Nat) (hw : (w : I
     · exact h
   · split <;> simpa [Frame.set] using h0
   · split <;> simpa [Frame.set] using h0
-  · split <;> simpa [Frame.set] using hirm
 
 end VaxisModel.Lemmas.EmuBody
